@@ -207,6 +207,27 @@ class SymRNG(BaseRNG):
         return SymArray(a, _I64)
 
 
+class FirstPickRNG(SymRNG):
+    """shuffle restricted to rotations: every element is first in exactly one explored order.
+    Sound for consumers whose behaviour depends on the order only through the first
+    element satisfying a fixed predicate (stochastic-descent scans that stop at the first
+    improving move): for each element e the order starting with e is explored."""
+
+    def _perm(self, n):
+        if n <= 1:
+            return numpy.arange(n)
+        c = sym.ctx()
+        tag = self._tag("p")
+        s_ = z3.Int(tag + "_rot")
+        c.assume(z3.And(s_ >= 0, s_ < n), internal=True)
+        names = ["%s_%d" % (tag, k) for k in range(n)]
+        vs = [z3.Int(nm) for nm in names]
+        for k in range(n):
+            c.assume(vs[k] == (k + s_) % n, internal=True)
+        self.draws.append(dict(kind="int", names=names, shape=(n,), stream=self.STREAM))
+        return numpy.array([operator.index(SV(v)) for v in vs], dtype=numpy.intp)
+
+
 class ScriptedRNG(BaseRNG):
     """replays the values a model assigned to the draws of a SymRNG run.
     values: dict name -> python number.  Missing names (draws the symbolic path did
